@@ -22,7 +22,7 @@ LEVEL = "exploration"
 TECHNIQUE = ("runtime monitoring of drawn artists: every line / band / bar / mesh of the returned axes is matched back to the data "
              "slice it shows (unique values) and its style and panel are compared with an independent model of the mapping")
 RULE = ("seeded datasets (x + 1-4 further dims of size 1-3, random dim order, NaN patterns incl. all-NaN slices and all-NaN "
-        "coordinates) x injective assignment of up to 4 dims to {color, hue, marker, markersize, markeredgecolor, linewidth, "
+        "coordinates, +-inf values as data in line mode) x injective assignment of up to 4 dims to {color, hue, marker, markersize, markeredgecolor, linewidth, "
         "linestyle, row, col} incl. two properties on one dim, fused dims and explicit *_order x (coordinate or a data variable with holes of its own, linked by xlink) x join_across_missing x aggregate "
         "(median/mean/max; quantile/std/stderr ranges; band/bars) x histogram mode (bins None/int/edges, density/counts) x heat-map "
         "mode (palette on/off, aggregation, also a plain two-dimensional z(x, y)); distinct by (shape, mapping, options); non-trivial when >= 2 lines or a mesh is drawn")
